@@ -14,7 +14,7 @@ def gen_cases(tier):
     cases = []
     for i in range(n):
         rng = family.rng_for(sd, PROP, i)
-        schema = gen.SCHEMAS[i % len(gen.SCHEMAS)] if i % 9 != 4 else "tlp_degenerate"
+        schema = gen.SCHEMAS[i % len(gen.SCHEMAS)] if i % 9 != 4 else ("tlp_degenerate" if i % 2 else "t4_chain")
         pr = gen.build_pair(rng, schema, dyadic=0.1 if i % 7 == 0 else 0.0)
         if pr is None:
             continue
@@ -26,6 +26,8 @@ def gen_cases(tier):
             cfgs.append((rng.choice(gen.keep_choices(rng, d1, d2)), rng.random() < 0.5, o))
         if tier == "quick":
             cfgs = rng.sample(cfgs, min(4, len(cfgs)))
+        if schema == "t4_chain":
+            cfgs = [([], False, [4]), ([], True, [4, 1, 2]), ([], True, None), ([], False, [1, 2, 3, 4, 5])]
         if schema == "tlp_degenerate":
             # tactic 5 ahead of the others, on a degenerate optimum
             cfgs = [([], False, [5]), ([], False, [5, 1, 2, 3, 4]), ([], True, [5, 2]), ([], True, [5])]
